@@ -125,6 +125,10 @@ def check(ctx, R):
         _manager_connect(ctx, R, roles, T)
         _connect_reader(ctx, R, roles, T)
         _device_connect(ctx, R, roles, T)
+        # "connect() first sends CNXN": nothing else reaches the new connection before it - reset, connect and handshake are one critical section
+        from ..locks import LockInfo
+        from .c12 import one_critical_section
+        one_critical_section(ctx, R, roles, LockInfo(ctx, roles), "HS-atomic")
     arg_rule(ctx, R, "auth", "ARG-auth", min_count=4)
     R.assume("the signer objects implement Sign/GetPublicKey as documented (C17 checks the shipped ones)")
     R.undecided("that a signature is accepted depends on key material and the device; device choices are run-time")
